@@ -21,3 +21,30 @@ def finish_s(run: report.Run, so: chrun.SOutcome, rule: str, explanation: str):
     c.setdefault("samples", [])
     c["samples"] = (c["samples"] + so.samples)[:16]
     c["exhaustive"] = (so.confirmed == so.partitions) and not so.harness_errors and c.get("exhaustive", True)
+
+
+def s_replay(payload):
+    rp = chrun.replay_native(payload["harness"], payload["fn"], payload["argstr"])
+    print(rp)
+    return 1 if (rp.get("returned") or "raised" in rp) else 0
+
+
+S_RULE = ("one evaluation = one CrossHair execution path (a distinct sequence of branch decisions of the real code on symbolic inputs, "
+          "each decision checked for feasibility by z3); non-trivial = the path satisfied the preconditions and reached the call into func_adl "
+          "(counted by the harness)")
+
+
+def run_s(prop, tier, level, jobs, explanation, functions, bounds, extra_assumptions=(), not_traced=()):
+    r = report.Run(prop, tier, level)
+    r.assumptions += S_ASSUME + list(extra_assumptions)
+    so = chrun.run_jobs(jobs)
+    chrun.fold_into(r, so)
+    finish_s(r, so, rule=S_RULE, explanation=explanation)
+    r.coverage["functions_executed_symbolically"] = list(functions)
+    r.coverage["bounds"] = bounds
+    r.coverage["not_symbolically_executed"] = list(not_traced)
+    if level == "model_checking":
+        r.coverage["states"] = max(so.reached, 1)
+        r.coverage["transitions"] = max(so.paths, 1)
+        r.coverage["traces_validated_against_impl"] = so.reached
+    return r, so
